@@ -2310,6 +2310,9 @@ class SymEx:
             return [(st, args[0])]          # float(x) is the identity on numbers (over the reals)
         if fv[0] == 'ext' and len(args) == 1 and not kws and args[0] in (('list', ()), ('dict', ())) and fv[1] in _EMPTY_FOLD:
             return [(st, _EMPTY_FOLD[fv[1]])]
+        if fv[0] == 'ext' and fv[1] in ('SORTED', 'LIST', 'builtins.reversed') and len(args) == 1 and args[0] in (('list', ()), ('tuple', ()), ('dict', ()), ('set', ())) \
+                and all(k in ('key', 'reverse') for k, _ in kws):
+            return [(st, ('list', ()))]          # nothing to order
         if fv == ('ext', 'COPY') and len(args) == 1 and not kws:
             return [(st, args[0])]
         if fv == ('ext', 'builtins.getattr') and len(args) == 2 and not kws and args[1][0] == 'str' and len(e.args) == 2 and args[1][1].isidentifier():
@@ -2993,6 +2996,9 @@ class Valuation:
                 o = a if t[3] == NONE else b
                 if o in self.isnone:
                     return self.isnone[o]
+                # an operand the valuation orders against other quantities is a number, not None
+                if any(o in k for k in self.order) or o in self.nums:
+                    return False
             if op == '==' and (t[3] == NONE or t[2] == NONE):
                 o = a if t[3] == NONE else b
                 if o in self.isnone:
